@@ -7,7 +7,7 @@
    ls = LoopStart, lx = LoopStop, id = LoopIdle / LoopAsleepWithWork) at the logged clock reading, and all
    the other mechanism actions (queueing, stage 2, pop/cancel, marshalling, the loop's iteration
    steps, Tick) are silent steps TLC has to infer.  The scenario of each trace is part of the batch
-   ([scn, own, ev]); the variant is chosen in TInit from {"own", "caller"}, and the furthest position
+   ([scn, own, busy, ev]); the variant is chosen in TInit from {"own", "caller"}, and the furthest position
    is tracked per variant, so the verdict also says WHICH cancellation decision explains the run:
        explained by "own"            the code behaves like the intended design on this run
        explained only by "caller"    the run needs the pinned decision (an un-marshalled foreign dispose)
@@ -31,7 +31,7 @@ At(t) == now * Unit = t
 On(th, i) == th \in Threads /\ ex[th].i = i
 
 TInit == /\ tid \in 1..NTraces /\ l = 1 /\ MonInit
-         /\ \E v \in {"own", "caller"} : MechInitFor(v, Traces[tid].scn, ToSet(Traces[tid].own))
+         /\ \E v \in {"own", "caller"} : MechInitFor(v, Traces[tid].scn, ToSet(Traces[tid].own), Traces[tid].busy)
 
 Logged == /\ More /\ At(Ev.t) /\ Step
           /\ CASE Ev.e = "sc" -> On(Ev.th, Ev.i) /\ SchedCall(Ev.th)
